@@ -82,7 +82,9 @@ def run_case(case, PROP='C01'):
         r = gen.rng(seed, PROP, case['stratum'], case['index'])
         mx = r.choice([20, 24, 32, 40, 64, 100, 128, 256, 512, 1024, 8192, 16384])
         cap = mx - 8
-        sp = gen.minimal(mx, rows=r.randint(1, 6), dtype=gen.dtstr(r.choice(gen.DTYPES), r.choice('<>')),
+        hc_write = r.random() < 0.3      # the write itself happens inside the high-compatibility context
+        sp = gen.minimal(mx, rows=r.randint(1, 6),
+                         dtype=gen.dtstr(r.choice(['float32', 'float64', 'uint8', 'uint16', 'uint32'] if hc_write else gen.DTYPES), r.choice('<>')),
                          width=r.choice([None, 1, 3, cap // 4 + 1, cap + 3]) )
         sp['ops'][1]['name'] = 'C' * r.choice([1, 2, 3, 10])
         k = len(sp['ops'])
@@ -101,7 +103,11 @@ def run_case(case, PROP='C01'):
             obs['e2e-after-rejected-call'] = 1
         sp['write'] = {'output_chunk_size': r.choice([mx, 2 * mx, 2 ** 16]),
                        'input_chunk_size': r.choice([None, 1, 2, 100])}
+        if hc_write:
+            sp['write']['hc'] = True
         run = harness.execute(sp)
+        if hc_write and run.data is not None:
+            obs['e2e-written-in-hc-context'] = 1
         lengths = [len(e[2]) for e in (run.lr_events or [])]
         obs['e2e-file'] = 1 if run.data is not None else 0
     elif case['kind'] == 'label':
